@@ -147,6 +147,8 @@ def _kv(b, spec):
         return "number"
     if vc in ("bool", "member") and b is not None and b["kind"] in NUMERIC_KINDS:
         return "int-subclass"
+    if b is not None and b["kind"] == "enum" and vc in ("bool", "member", "number"):
+        return "member-or-int"
     return vc
 
 
